@@ -118,8 +118,7 @@ def mutators(w, e, rng, tag):
             'link mT %s handle %s' % (g.slot, e['t2'].slot), 'link mM %s handle %s' % (g.slot, e['m2'].slot)]
     for h in ['o', 'a2', 'd', 't', 'm', 'g']:
         out.append('single metadata %s handle %s' % (e[h].slot, s.slot))
-    out += ['single metadata %s idof %s' % (e['d2'].slot, s.slot), 'single seclink %s handle %s' % (s.slot, e['s2'].slot) if False else
-            'single seclink %s idof %s' % (e['s2'].slot, s.slot),
+    out += ['single metadata %s idof %s' % (e['d2'].slot, s.slot), 'single seclink %s idof %s' % (e['s2'].slot, s.slot),
             'single positions %s handle %s' % (e['m2'].slot, e['a3'].slot), 'single extents %s handle %s' % (e['m2'].slot, e['a1'].slot),
             'single featdata %s handle %s' % (e['r'].slot, e['a2'].slot)]
     # attribute setters on every kind
@@ -269,7 +268,8 @@ def defects(L):
     lib = '[%d,%d,%d]' % L
     fmt_ok = S('nix')
     out = []
-    for v in ['~', '#str', '[]', '[1]', '[%d,%d]' % L[:2], '[%d,%d,%d,0]' % L, '[%d,%d,%d]' % (L[0] + 1, L[1], L[2]), '[%d,%d,%d]' % (L[0], L[1] + 1, L[2])]:
+    for v in ['~', '#str', '[]', '[1]', '[%d,%d]' % L[:2], '[%d,%d,%d,0]' % L, '[%d,%d,%d]' % (L[0] + 1, L[1], L[2]), '[%d,%d,%d]' % (L[0], L[1] + 1, L[2]),
+              '[%d,%d,%d]' % (L[0], L[1], L[2] + 1), '[%d,%d,%d]' % (L[0], L[1], L[2])]:
         out.append((v, '=', '='))
     for f in ['~', '#int', S('NIX'), S('nix '), S(''), S('hdf5')]:
         out.append(('=', f, '='))
